@@ -41,4 +41,16 @@ def GoodJwt : Prop :=
   skewFutureSec = 120 ∧ skewPastSec = 10 ∧ nbfTypeChecked = true ∧ ecdsaSigLenExact = true
 instance : Decidable GoodJwt := by unfold GoodJwt; infer_instance
 
+/-- C03: nonce and PKCE verifier are at least 32 bytes read from crypto/rand (the state is a v4 UUID from google/uuid) -/
+def GoodRandom : Prop := randomFromCryptoRand = true ∧ 32 ≤ nonceBytes ∧ 32 ≤ verifierBytes
+instance : Decidable GoodRandom := by unfold GoodRandom; infer_instance
+
+/-- C15 / C17 / C18: the remembered request URI is capped (the proofs need ≥ 1; C18's main-cookie bound needs ≤ 1024) -/
+def GoodIncoming : Prop := 1 ≤ maxIncomingPathLength ∧ maxIncomingPathLength ≤ 1024
+instance : Decidable GoodIncoming := by unfold GoodIncoming; infer_instance
+
+/-- C07 / C17: chunk size positive; absolute session lifetime 24 h -/
+def GoodSession : Prop := 0 < maxCookieSize ∧ absoluteSessionTimeoutSec = 86400 ∧ poolPutOnlyBeforeNilReturn = true
+instance : Decidable GoodSession := by unfold GoodSession; infer_instance
+
 end Oidc.Facts
